@@ -393,8 +393,11 @@ def do_check(mod, prop, tier, seed, scratch, a, t0):
         wall_s=round(time.time() - t0, 2),
         violations=len(violations),
     )
-    os.makedirs(os.path.join(VERIF, "evidence"), exist_ok=True)
-    with open(os.path.join(VERIF, "evidence", f"{prop}.json"), "w") as f:
+    # runs against a modified copy of the repository (VF_REPO: tools/mut.py, seedcheck.py, sweep.py) must not
+    # overwrite the evidence of the real tree
+    evdir = os.path.join(VERIF, "evidence") if not os.environ.get("VF_REPO") else os.path.join(VERIF, ".scratch", "evidence-mut")
+    os.makedirs(evdir, exist_ok=True)
+    with open(os.path.join(evdir, f"{prop}.json"), "w") as f:
         f.write(dumps(ev, indent=1))
 
     for line in kf_lines:
